@@ -429,7 +429,7 @@ def run(prog, tier, extra=None):
     R8 = res.rule("C09.no-field-skipped", "a decoder returns Ok only after each optional/trailing field was decoded or its own presence test said there is nothing to read", floor=1)
     R9 = res.rule("C09.read-before-decode", "a decoder's decisions do not read a field of the value under construction before that field was assigned from the input", floor=0)
     R7 = res.rule("C09.inline-variants", "Message variants encoded inline (tuple fields concatenated in the match arm) are read back at the offsets they are written", floor=4)
-    R10 = res.rule("C09.dispatch-guards", "a length guard in a Message::deserialize arm does not refuse the shortest encoding the payload's writer produces", floor=1)
+    R10 = res.rule("C09.dispatch-guards", "a length guard in a Message::deserialize arm does not refuse the shortest encoding the payload's writer produces", floor=5)
     R3 = res.rule("C09.tags", "Message tags are injective and each decode arm constructs the variant carrying that tag", floor=28)
     cd = Codec(prog)
     summary = {}
@@ -761,6 +761,7 @@ def run(prog, tier, extra=None):
                         payload = cn
                         break
             if payload is not None:
+                res.instance(R10)
                 wpath = payload[: -len(payload.rsplit("::", 1)[-1])] + payload.rsplit("::", 1)[-1].replace("deserialize_from_net", "serialize_for_net").replace("deserialize", "serialize")
                 wb = prog.bodies.get(wpath)
                 segs10 = cd.writer_table(wb) if wb is not None else None
@@ -780,7 +781,6 @@ def run(prog, tier, extra=None):
                         if k10 is None or not k10.is_const():
                             continue
                         K = int(k10.c)
-                        res.instance(R10)
                         holds = {"Lt": wmin < K, "Le": wmin <= K, "Gt": wmin > K, "Ge": wmin >= K}[c["op"]]
                         taken = c["true_edges"] if holds else c["false_edges"]
                         # the edge the shortest encoding takes must still be able to build the message
